@@ -1,4 +1,6 @@
 import RxModel.Sched.Chain
+import RxModel.Lemmas.Async
+import RxModel.Lemmas.Sched
 /-
   C16 — Ending a stream early retires the producers that feed it.
   `fin` is `is_finished` as forwarded by every stage of a chain.
@@ -35,5 +37,41 @@ theorem C16_tick_declines (w : TW) (seq : Nat) (h : fin w.stages = true) :
 theorem C16_iter_stops_when_finished (w : TW) (h : fin w.stages = true) (n fuel k : Nat) :
     TW.subscribeSource.loop n (fuel + 1) k w = w := by
   simp [TW.subscribeSource.loop, h]
+
+/-- The stream drivers (from_stream / from_stream_result; model of the REPAIRED
+    code, DESIGN §7 finding 18) ask `is_finished()` before every `poll_next`: once
+    the observer is finished a poll of the driver returns `Ready` at once, pulls
+    nothing from the stream and delivers nothing — bounded, unbounded (`cyc`) or
+    silent stream alike. -/
+theorem C16_stream_retires (res cyc : Bool) (script : List AStep) (f : Nat) (w : TW)
+    (h : fin w.stages = true) :
+    (TW.pollStream res script cyc (f + 1) w).2 = .done ∧
+    (TW.pollStream res script cyc (f + 1) w).1.log = w.log ∧
+    (TW.pollStream res script cyc (f + 1) w).1.pulls = w.pulls ∧
+    (TW.pollStream res script cyc (f + 1) w).1.sched = w.sched := by
+  exact pollStream_finished res cyc script f w h
+
+/-- … and through the scheduler: the driver's task, polled after the subscriber
+    has terminated, is finished (it leaves the executor: run-until-idle ends). -/
+theorem C16_stream_task_finishes (w : TW) (k : TaskId) (t : Task) (res cyc : Bool) (script : List AStep)
+    (hsrc : w.src = .stream res script cyc)
+    (hk : w.sched.tasks[k]? = some t) (hb : t.body = .streamSrc) (hd : t.done = false)
+    (hod : t.outerDelay = none) (hot : t.outerTimer = none) (hr : t.rep = none)
+    (h : fin w.stages = true) :
+    ∃ t', (w.pollTask k).sched.tasks[k]? = some t' ∧ t'.done = true ∧ (w.pollTask k).log = w.log := by
+  unfold TW.pollTask
+  rw [pollPre_plain w.sched k t hk hd hod hot hr]
+  cases hkr : t.keepRunning with
+  | false =>
+    refine ⟨{ t with woken := false, done := true }, ?_, rfl, rfl⟩
+    simp [hkr, Sched.setTask_get_self _ _ _ _ hk]
+  | true =>
+    have hk' := Sched.setTask_get_self w.sched k { t with woken := false, outerTimer := none } t hk
+    have key := afterAsync_stream_finished
+      ({ w with sched := w.sched.setTask k { t with woken := false, outerTimer := none } } : TW)
+      k _ res cyc script hsrc hk' h
+    simp only [TW.afterAsync, hkr, hb] at key
+    simp only [hkr, if_true, hb, Body.isAsync]
+    exact key
 
 end Rx.T
